@@ -17,13 +17,13 @@ import (
 )
 
 type membOp struct {
-	kind   string // reserve join leave update addon
-	id     string
-	seat   int
-	ids    []string        // leave / update leaves
-	joins  []pt.JoinPlayer // update joins
-	draws  []int           // random-seat draws
-	label  string
+	kind  string // reserve join leave update addon
+	id    string
+	seat  int
+	ids   []string        // leave / update leaves
+	joins []pt.JoinPlayer // update joins
+	draws []int           // random-seat draws
+	label string
 }
 
 func (o membOp) String() string {
@@ -58,9 +58,9 @@ type membBase struct {
 }
 
 type membState struct {
-	key    string
-	path   []membOp
-	depth  int
+	key   string
+	path  []membOp
+	depth int
 }
 
 // membSnapshot: everything C03 talks about.
@@ -200,15 +200,17 @@ func membOps(n int) []membOp {
 		membOp{kind: "leave", ids: []string{"ghost", "a"}},
 		membOp{kind: "leave", ids: []string{"a", "a"}},
 	)
-	jp := func(id string, seat int) pt.JoinPlayer { return pt.JoinPlayer{PlayerID: id, RedeemChips: 5, Seat: seat} }
+	jp := func(id string, seat int) pt.JoinPlayer {
+		return pt.JoinPlayer{PlayerID: id, RedeemChips: 5, Seat: seat}
+	}
 	last := n - 1
 	ops = append(ops,
 		membOp{kind: "update", joins: []pt.JoinPlayer{jp("c", 0)}},
 		membOp{kind: "update", joins: []pt.JoinPlayer{jp("c", -1)}},
-		membOp{kind: "update", joins: []pt.JoinPlayer{jp("a", -1)}},                  // duplicate id, random seat
-		membOp{kind: "update", joins: []pt.JoinPlayer{jp("a", last)}},                // duplicate id, fixed seat
-		membOp{kind: "update", joins: []pt.JoinPlayer{jp("c", -1), jp("d", -1)}},     // two random seats
-		membOp{kind: "update", joins: []pt.JoinPlayer{jp("c", last), jp("d", last)}}, // same seat twice
+		membOp{kind: "update", joins: []pt.JoinPlayer{jp("a", -1)}},                             // duplicate id, random seat
+		membOp{kind: "update", joins: []pt.JoinPlayer{jp("a", last)}},                           // duplicate id, fixed seat
+		membOp{kind: "update", joins: []pt.JoinPlayer{jp("c", -1), jp("d", -1)}},                // two random seats
+		membOp{kind: "update", joins: []pt.JoinPlayer{jp("c", last), jp("d", last)}},            // same seat twice
 		membOp{kind: "update", joins: []pt.JoinPlayer{jp("c", last), jp("d", -1), jp("e", -1)}}, // fixed + random that may not fit
 		membOp{kind: "update", joins: []pt.JoinPlayer{jp("c", -1)}, ids: []string{"a"}},
 		membOp{kind: "update", joins: []pt.JoinPlayer{jp("c", 0)}, ids: []string{"a"}},
@@ -222,13 +224,13 @@ func membOps(n int) []membOp {
 }
 
 type membSearch struct {
-	base    membBase
+	base     membBase
 	maxDepth int
-	name    string
-	states  map[string]int
-	list    []membState
-	viol    map[string]*Violation
-	trans   int
+	name     string
+	states   map[string]int
+	list     []membState
+	viol     map[string]*Violation
+	trans    int
 }
 
 // runPath replays path on a fresh table and applies op; judge decides.
@@ -478,7 +480,9 @@ func membSuites(tier string) []*Suite {
 	if tier == "thorough" {
 		depthSmall, depthBig, depthHand = 6, 3, 3
 	}
-	jp := func(id string, seat int) pt.JoinPlayer { return pt.JoinPlayer{PlayerID: id, RedeemChips: 5, Seat: seat} }
+	jp := func(id string, seat int) pt.JoinPlayer {
+		return pt.JoinPlayer{PlayerID: id, RedeemChips: 5, Seat: seat}
+	}
 	add := func(b membBase, depth int) {
 		b2 := b
 		name := fmt.Sprintf("memb/%s/seats%d/depth%d", b.name, b.seats, depth)
@@ -502,8 +506,8 @@ func membSuites(tier string) []*Suite {
 func init() {
 	register(&Check{
 		ID: "C03", Level: "model_checking",
-		Rule: "explicit-state search over membership operation sequences (reserve fixed/random seat incl. re-buy, join, leave with every listed subset incl. unknown / mixed / repeated ids, batch update with seat-taken, duplicate id, too many joins, unknown leaver, fixed+random mixes; every random seat draw) on the real table engine from four base states (fresh CT table, MTT table created with players, table created on a break, standby after one hand): each state is reached by replaying its shortest path on a fresh engine, one more operation is applied and judged by the bookkeeping invariant, error => nothing changed, and a free seat is obtainable; states are merged on (status, seat map, players, seat manager)",
+		Rule:        "explicit-state search over membership operation sequences (reserve fixed/random seat incl. re-buy, join, leave with every listed subset incl. unknown / mixed / repeated ids, batch update with seat-taken, duplicate id, too many joins, unknown leaver, fixed+random mixes; every random seat draw) on the real table engine from four base states (fresh CT table, MTT table created with players, table created on a break, standby after one hand): each state is reached by replaying its shortest path on a fresh engine, one more operation is applied and judged by the bookkeeping invariant, error => nothing changed, and a free seat is obtainable; states are merged on (status, seat map, players, seat manager)",
 		Assumptions: []string{"id pool of 3-5 players plus an unknown id; 2-4 seats to the reported depth, 9-10 seats to a smaller depth", "random seats: the first two shuffle positions are enumerated (the operations draw at most two... five seats)"},
-		Suites: membSuites,
+		Suites:      membSuites,
 	})
 }
